@@ -10,7 +10,7 @@ from ..core import cstr, clist, cpair, cnat, cbool, copt, cforest
 ID = "C14"
 THEOREM_FILE = "Properties/C14.v"
 LEVEL = "proof"
-IMPORTS = "From Annet Require Import Base.Str Base.Tree Model.Offside Model.Rpl Spec.P_C14 Spec.P_C14x Spec.P_C14r Spec.P_C14a."
+IMPORTS = "From Annet Require Import Base.Str Base.Tree Model.Offside Model.Rpl Spec.P_C14 Spec.P_C14x Spec.P_C14r Spec.P_C14a Spec.P_C14h."
 TY = "(vendor * prog) * list igen"
 META = {
     "text": "Partial (the model is hand-written; it is tied to the code by the correspondence). "
@@ -40,7 +40,19 @@ META = {
             "PrefixListNameGenerator.get_prefix(...).name and mangle_united_community_list_name on direct probes "
             "(bounds 0, unset bounds, unsorted and repeated names); P_C14 (no AclError, nesting, refs subset of defs "
             "whole and split by generator, error before lines) and the Coq ACL model on the real rows are evaluated "
-            "on the real output. NOT PROVED: (b) nesting (parse of the generated text) is only evaluated on real "
+            "on the real output. "
+            "RUNS AFTER THE FIRST (Spec/P_C14h.v): the model is a function of (vendor, program); that a generator OBJECT "
+            "gives the same output whatever it was run on before is the premise history_free: proved - a session of a "
+            "history-free object is the list of first runs of new objects, so every per-run law (C14_refs_defined: "
+            "C14_session_refs_defined) holds of every run of every session, for any sequence of vendors and programs; the "
+            "model's generators are history free; an object that keeps its set of emitted prefix-list names between runs "
+            "equals the model on its first run for every input and leaves the references undefined on the second "
+            "(C14_persisted_names_refuted). TESTED: generator objects built once and run for 2-3 devices in sequence "
+            "(same / different inputs, same / different vendors, huawei after arista and back, cumulus; every object "
+            "twice per device: the stream consumed row by row, then the real _run_partial_generator) - EVERY run is "
+            "evaluated by all predicates above and compared word for word with the model, and Coq compares every run with "
+            "the run of new objects on the same inputs (P_C14_indep: rows, block paths, items, error, runner outcome). "
+            "NOT PROVED: (b) nesting (parse of the generated text) is only evaluated on real "
             "outputs; the theorems read rows as token lists, the step from tokens to text is the correspondence.",
     "technique": "Coq: case analysis over the action/condition enums with universally quantified lists, induction "
                  "over statement/policy streams, a reflective word-level ACL cover proved sound for Model/Acl.v; "
@@ -425,6 +437,59 @@ def exhaustive_items(rng):
     return out
 
 
+# sessions: the generator OBJECTS are built once and run for 2-3 devices in sequence (runner: session()).
+# Shapes: the same inputs twice on one vendor; the same inputs on arista, then huawei (and the other way
+# round); different inputs on one vendor (the entity names come from one pool, so derived names overlap);
+# three devices mixing both; cumulus after cumulus.  Every member is an ordinary program of gen_program.
+SESSION_SHAPES = [
+    ("same-inputs-same-vendor", [("huawei", 0), ("huawei", 0)]),
+    ("same-inputs-same-vendor", [("arista", 0), ("arista", 0)]),
+    ("same-inputs-same-vendor", [("cumulus", 0), ("cumulus", 0)]),
+    ("huawei-after-arista", [("arista", 0), ("huawei", 0)]),
+    ("huawei-after-arista", [("arista", 0), ("huawei", 1)]),
+    ("arista-after-huawei", [("huawei", 0), ("arista", 0)]),
+    ("different-inputs-same-vendor", [("huawei", 0), ("huawei", 1)]),
+    ("different-inputs-same-vendor", [("arista", 0), ("arista", 1)]),
+    ("different-inputs-same-vendor", [("cumulus", 0), ("cumulus", 1)]),
+    ("three-devices", [("arista", 0), ("arista", 1), ("huawei", 0)]),
+    ("three-devices", [("huawei", 0), ("cumulus", 0), ("huawei", 0)]),
+    ("three-devices", [("arista", 0), ("huawei", 1), ("arista", 0)]),
+]
+
+
+def gen_session(rng, j):
+    import copy
+    label, shape = SESSION_SHAPES[j % len(SESSION_SHAPES)]
+    progs = {}
+    members = []
+    for vendor, k in shape:
+        if k not in progs:
+            # mostly constructs every back-end of the session accepts, so that lists are really generated
+            progs[k] = gen_program(rng, vendor, tame=rng.random() < 0.75)
+        c = copy.deepcopy(progs[k])
+        c["vendor"] = vendor
+        members.append(c)
+    return {"session": members, "shape": label}
+
+
+def gen_sessions(ctx):
+    rng = ctx.rng("sessions")               # own stream: the older families keep their inputs
+    n = 600 if ctx.thorough else 132
+    sessions = [gen_session(rng, j) for j in range(n)]
+    rngp = ctx.rng("session-probes")
+    for s_ in sessions:
+        for c in s_["session"]:
+            add_probes(rngp, c)
+    hist = {}
+    for s_ in sessions:
+        hist[s_["shape"]] = hist.get(s_["shape"], 0) + 1
+    ctx.coverage.setdefault("input_distribution", {}).update({
+        "sessions": n, "session_runs": sum(len(s_["session"]) for s_ in sessions), "session_shapes": hist,
+        "session": "generator objects built once, run for 2-3 devices in sequence; each object twice per device "
+                   "(stream consumed row by row, then the real _run_partial_generator)"})
+    return sessions
+
+
 def gen_cases(ctx):
     rng = ctx.rng("gen")
     cases = exhaustive_items(rng)
@@ -651,6 +716,47 @@ def signature(kind, case, out):
 # ----------------------------------------------------------------------------------------
 
 
+INDEP_TY = "list igen * list igen"
+INDEP_PREDS = {"indep": "fun c => P_C14_indep (fst c) (snd c)"}
+INDEP_GENS = {g: f"fun c => forallb (fun nb => negb (gname_eqb (fst nb) {GNAMES[g]}) || snd nb) "
+                 f"(indep_per_gen (fst c) (snd c))" for g in GNAMES}
+
+
+def evaluate_sessions(sessions, tag="sessions"):
+    """every run of every session is a case of its own for all predicates (flat), and Coq compares each run
+    with the run of new objects on the same inputs"""
+    if not sessions:
+        return [], [], {}, [], {}
+    souts = core.run_impl_sharded("c14_runner.py", sessions, timeout=1200)
+    flat_cases, flat_outs, where, fresh = [], [], [], []
+    for si, (s_, o) in enumerate(zip(sessions, souts)):
+        for k, (c, r) in enumerate(zip(s_["session"], o["session"])):
+            if "build_error" in r["run"] or "build_error" in r["fresh"]:
+                continue
+            flat_cases.append(c)
+            flat_outs.append(r["run"])
+            fresh.append(r["fresh"])
+            where.append((si, k))
+    terms = [coq_case(c, o) for c, o in zip(flat_cases, flat_outs)]
+    res = core.run_case_files(ID, TY, IMPORTS, PREDS, terms, per_file=60, tag=tag, timeout=1200)
+    nres = core.run_case_files(ID, "nameobs", IMPORTS, {"names": "names_agree"},
+                               [coq_names(o["names"]) for o in flat_outs], per_file=400, tag=tag + "_names",
+                               timeout=600)
+    res["names"] = nres["names"]
+    iterms = [cpair(coq_obs(c["vendor"], f["gens"]), coq_obs(c["vendor"], o["gens"]))
+              for c, f, o in zip(flat_cases, fresh, flat_outs)]
+    ires = core.run_case_files(ID, INDEP_TY, IMPORTS, dict(INDEP_PREDS, **INDEP_GENS), iterms, per_file=60,
+                               tag=tag + "_indep", timeout=1200)
+    res["indep"] = ires["indep"]
+    res["indep_gens"] = {j: [g for g in GNAMES if j in ires[g]] for j in ires["indep"]}
+    return flat_cases, flat_outs, res, where, {"fresh": fresh, "souts": souts}
+
+
+def session_replay(sessions, where, j):
+    si, k = where[j]
+    return {"session": sessions[si]["session"][:k + 1], "shape": sessions[si].get("shape"), "failing_run": k}
+
+
 def evaluate(cases, tag="cases"):
     outs = core.run_impl_sharded("c14_runner.py", cases, timeout=1200)
     keep = [i for i, o in enumerate(outs) if "build_error" not in o]
@@ -711,6 +817,55 @@ def run(ctx):
                  + ("" if i in res["agree"] else "; they agree under the abstraction (head, names, nesting)"),
             replay={"correspondence": "Model.Rpl.run_all patched vs annet.rpl_generators (agree_full)",
                     "case": cases[i], "impl": outs[i]}, no_input=True))
+    # ---- sessions: every run of a generator object that has been run before
+    sessions = gen_sessions(ctx)
+    scases, souts, sres, where, extra = evaluate_sessions(sessions)
+    sfailing = set()
+    for kind in ("before", "acl", "acl_model", "nesting", "refs", "refs_split"):
+        for j in sres[kind]:
+            if kind == "refs_split" and j in sres["refs"]:
+                continue
+            sfailing.add(j)
+            sig, what = signature(kind, scases[j], souts[j])
+            k = where[j][1]
+            if j in sres["indep"]:
+                # the same inputs given to new objects behave differently: the earlier runs are the cause
+                sig += "/in-a-later-run-of-the-same-generator-objects"
+                what += (f" -- in run {k + 1} of a session of the same generator objects "
+                         f"({sessions[where[j][0]]['shape']}); generators whose output differs from a run of new "
+                         f"objects on the same inputs: {sres['indep_gens'].get(j)}")
+            ctx.add_violation(core.Violation(signature=sig, what=what,
+                                             replay={"predicate": kind, "case": session_replay(sessions, where, j),
+                                                     "impl": souts[j]}))
+    for j in sres["indep"]:
+        gens = sres["indep_gens"].get(j) or ["?"]
+        k = where[j][1]
+        ctx.add_violation(core.Violation(
+            signature=f"C14/{scases[j]['vendor']}/{gens[0]}-generator/output-depends-on-earlier-runs",
+            what=f"{scases[j]['vendor']}: run {k + 1} of a session ({sessions[where[j][0]]['shape']}) - the generator "
+                 f"objects {gens} that have been run before give a different stream / runner outcome than new "
+                 f"objects on the same inputs (a generator's output must depend on its inputs only)",
+            replay={"predicate": "indep", "case": session_replay(sessions, where, j),
+                    "impl": {"run": souts[j], "fresh": extra["fresh"][j]}}))
+    sdis = [j for j in sres["agree_full"] if j not in sfailing and j not in sres["indep"]]
+    for j in sdis[:1]:
+        ctx.add_violation(core.Violation(
+            signature="C14/model-impl-disagree",
+            what="the Coq model of the rpl generators and the real generators differ in a session run although new "
+                 "objects agree with the session's objects",
+            replay={"correspondence": "Model.Rpl.run_all patched vs annet.rpl_generators (agree_full)",
+                    "case": session_replay(sessions, where, j), "impl": souts[j]}, no_input=True))
+    ctx.coverage["session_runs_evaluated"] = len(scases)
+    ctx.coverage["session_runs_with_a_generator_error"] = sum(
+        1 for o in souts if any(g["err"] for g in o["gens"].values()))
+    ctx.coverage["session_runs_differing_from_new_objects"] = len(sres["indep"])
+    ctx.coverage["session_rows_compared_word_for_word"] = sum(len(g["rows"]) for o in souts for g in o["gens"].values())
+    for j in sres["names"][:1]:
+        ctx.add_violation(core.Violation(
+            signature="C14/name-derivation-disagree",
+            what="Model.Rpl.pfx_name / mangle differ from the real name-derivation functions on a probe (session run)",
+            replay={"correspondence": "Spec.P_C14x.names_agree", "case": session_replay(sessions, where, j),
+                    "impl": souts[j]["names"]}, no_input=True))
     for i in res["names"][:1]:
         ctx.add_violation(core.Violation(
             signature="C14/name-derivation-disagree",
@@ -736,12 +891,12 @@ def run(ctx):
         if nontrivial(cases[i], o):
             nontriv += 1
     ctx.coverage.update({
-        "evaluations": len(keep),
+        "evaluations": len(keep) + len(scases),
         "distinct_nontrivial": nontriv,
         "rule": "distinct by (vendor, program after the builders, entity sets); non-trivial = some generator raised "
                 "or the policy stream carries >= 3 rows of conditions/actions",
         "samples": [{"input": cases[i], "impl": outs[i]} for i in keep[-2:]],
-        "traces_validated_against_impl": len(keep),
+        "traces_validated_against_impl": len(keep) + len(scases),
         "disagreements_checked": len(disagree),
         "outcome_histogram": hist,
         "error_classes_seen": dict(sorted(errs.items())),
@@ -764,12 +919,24 @@ def run(ctx):
         "names may repeat)",
         "C14_acl_covered: row text = tokens joined by single blanks; Cumulus has no ACL (text generator)",
         "CommunityType.COST, custom conditions/actions and set_next_hop (undocumented) are outside the domain",
+        "a generator object behaves like a function of (device inputs): premise history_free of the session theorems; "
+        "observed on sessions of 2-3 devices per set of generator objects (P_C14_indep against new objects); the "
+        "runner resets TreeGenerator._block_path (its own observation device, read by nothing in annet) before a run",
     ]
     ctx.notes.append("level: partial — see META.note")
 
 
 def replay(ctx, doc):
     c = doc["replay"]["case"]
+    if "session" in c:
+        scases, souts, sres, where, extra = evaluate_sessions([c], tag="replay_sess")
+        last = len(scases) - 1
+        kinds = ("before", "acl", "acl_model", "nesting", "refs", "refs_split", "indep")
+        bad = [k for k in kinds if last in sres[k]]
+        print("impl (last run of the session):", json.dumps(souts[last])[:3000])
+        print("failing predicates on the last run:", bad, " generators differing from new objects:",
+              sres["indep_gens"].get(last))
+        return 1 if bad else 0
     outs, keep, res = evaluate([c], tag="replay")
     print("impl:", json.dumps(outs[0])[:3000])
     bad = [k for k in ("before", "acl", "acl_model", "nesting", "refs", "refs_split") if res[k]]
